@@ -164,7 +164,10 @@ Inductive op :=
 | OSetData (i : nat) (w : view) (u r k : nat) (v : Q)  (* s.i<w>.set_data(v, units, key) *)
 | OAssignView (i j : nat) (w : view)                   (* s_i.<w> = s_j.<w>  (mol / mass / vol of single-phase streams) *)
 | OCopyRow (i : nat) (w : view) (r1 r2 : nat)          (* ms.i<w>[phase r1] = ms.i<w>[phase r2] *)
-| OFromStreams (l : list nat).                          (* MultiStream.from_streams([streams l]) appended to the store *)
+| OFromStreams (l : list nat)                           (* MultiStream.from_streams([streams l]) appended to the store *)
+| OResetFlow (i : nat) (p : option phase) (u : option nat) (tot : option Q) (fl : list (nat * Q))
+                                                        (* s.reset_flow(phase, units, total_flow, **flows), single-phase *)
+| OSub (i r : nat).                                     (* ms[phase r]: the phase stream of a MultiStream (created once) *)
 
 Section Model.
 Variable Vf : nat -> phase -> Q -> Q -> Q.       (* molar volume oracle: chemical, phase in {g,l,s}, T, P *)
@@ -675,6 +678,32 @@ Definition from_streams h (l : list nat) : heap * outcome :=
       end
   end.
 
+(* Stream.reset_flow: empty, THEN the new phase, then the flows in the given units, then the total *)
+Fixpoint set_items h s (w : view) (f : Q) (fl : list (nat * Q)) : heap :=
+  match fl with
+  | [] => h
+  | (k, v) :: t => set_items (fst (set_item h s w O k (v / f))) s w f t
+  end.
+Definition reset_flow_pre h s (p : option phase) : heap :=
+  let h1 := empty_all h s in
+  match p with Some ph => put_box h1 (pbox s) ph | None => h1 end.
+Definition nonzero_opt (t : option Q) : option Q :=
+  match t with Some x => if qzerob x then None else Some x | None => None end.
+Definition reset_flow h s (p : option phase) (u : option nat) (tot : option Q) (fl : list (nat * Q)) : heap * outcome :=
+  if multi s then (h, XDomain)
+  else
+    let h1 := reset_flow_pre h s p in
+    match fl, nonzero_opt tot with
+    | [], None => (h1, XNone)
+    | _, t =>
+        match (match u with None => Some (VMol, 1) | Some uu => unit_of uu end) with
+        | None => (h1, XErr EDim)
+        | Some (w, f) =>
+            let h2 := set_items h1 s w f fl in
+            match t with Some x => set_total h2 s w (x / f) | None => (h2, XNone) end
+        end
+    end.
+
 (* what the harness observes with id(): do the views handed out now wrap the current objects *)
 Definition alias_flags h s : heap * list bool :=
   let '(h1, mv) := by_mass h s in
@@ -762,6 +791,8 @@ Definition step h (o : op) : heap * outcome :=
       end)
   | OCopyRow i w r1 r2 => withs i (fun s => copy_row_view h s w r1 r2)
   | OFromStreams l => from_streams h l
+  | OResetFlow i p u tot fl => withs i (fun s => reset_flow h s p u tot fl)
+  | OSub _ _ => (h, XDomain)          (* the registry of phase streams lives in the outermost layer (stepS) *)
   end.
 
 Fixpoint run h (ops : list op) : heap * list outcome :=
@@ -899,6 +930,21 @@ Definition stepU U (o : op) : ustate * outcome :=
       let reset := multi s && is_none x &&
                    match psort l with _ :: _ :: _ => negb (phases_eqb (psort l) (phs s)) | _ => false end in
       (if reset then pm_set U1 i None else U1, x))
+  | OResetFlow i p u tot fl => withs i (fun s =>
+      if multi s then (U, XDomain)
+      else
+        let U0 := with_heap U (reset_flow_pre h s p) in
+        match fl, nonzero_opt tot with
+        | [], None => (U0, XNone)
+        | _, t =>
+            let '(U1, q) := match u with None => (U0, Ok (VMol, 1)) | Some uu => flow_lookup U0 uu end in
+            match q with
+            | Err e => (U1, XErr e)
+            | Ok (w, f) =>
+                let U2 := with_heap U1 (set_items (uh U1) s w f fl) in
+                match t with Some x => set_totalU U2 i s w (x / f) | None => (U2, XNone) end
+            end
+        end)
   | OFromStreams l =>
       let '(U1, x) := liftU U (step h o) in
       (if is_none x then mkU (uh U1) (u_flow U1) (u_fac U1) (upd (u_pm U1 ++ [None]) (length (streams h)) None) else U1, x)
@@ -983,6 +1029,171 @@ Fixpoint runK K (ops : list op) : kstate * list outcome :=
   | o :: t => let '(K1, x) := stepK K o in let '(K2, xs) := runK K1 t in (K2, x :: xs)
   end.
 
+(* ---------- the phase streams of a MultiStream (ms[phase], MultiStream._streams) ----------
+   s_subs    the _streams dicts: (multi-stream, phase) -> stream of the store
+   s_locked  the Phase boxes that are LockedPhase objects
+   A phase stream is an ordinary single-phase stream of the heap whose molar vector is one row of the MultiStream's
+   array, whose ThermalCondition object is the MultiStream's and whose indexer (with its own view cache) is created
+   by get_phase.  The MultiStream re-creates those indexers when it gets a new MaterialIndexer (phases setter,
+   _reset_thermo), forgets the phase streams when it becomes single-phase, and resets their property memo in reset_cache. *)
+Record sstate := mkS { sk : kstate; s_subs : list (nat * (phase * nat)); s_locked : list nat }.
+Definition s_heap S : heap := uh (ku (sk S)).
+Definition k_with_heap K h := mkK (with_heap (ku K) h) (k_ic K).
+Definition k_pm_reset K (c : nat) := mkK (pm_set (ku K) c None) (k_ic K).
+Definition k_grow K h (n : nat) :=            (* one more stream (a single-phase one) in the store *)
+  mkK (mkU h (u_flow (ku K)) (u_fac (ku K)) (upd (u_pm (ku K) ++ [None]) n None)) (upd (k_ic K ++ [None]) n None).
+Fixpoint sub_find (i : nat) (p : phase) (l : list (nat * (phase * nat))) : option nat :=
+  match l with
+  | [] => None
+  | (j, (q, c)) :: t => if Nat.eqb j i && phase_eqb q p then Some c else sub_find i p t
+  end.
+Definition subs_of (i : nat) (l : list (nat * (phase * nat))) := filter (fun x => Nat.eqb (fst x) i) l.
+Definition subs_not (i : nat) (l : list (nat * (phase * nat))) := filter (fun x => negb (Nat.eqb (fst x) i)) l.
+Definition locked S (b : nat) : bool := existsb (Nat.eqb b) (s_locked S).
+
+(* stream._imol = imol.get_phase(phase): a new ChemicalIndexer over the row, with a LockedPhase and an empty view cache *)
+Definition repoint K (c row : nat) (p : phase) (pk : nat) : kstate * option nat :=
+  let h := uh (ku K) in
+  match nth_error (streams h) c with
+  | Some sc =>
+      if multi sc then (K, None)        (* only single-phase children are re-pointed inside the modelled domain *)
+      else
+        let '(ca, h1) := new_cache h in
+        let '(b, h2) := new_box h1 p in
+        (* ... and reset_cache() of the MultiStream renews the child's property memo in the same call *)
+        (k_pm_reset (k_with_heap K (put_stream h2 c (mkstream false row b [] pk ca (tc sc)))) c, Some b)
+  | None => (K, None)
+  end.
+(* the loops over _streams in the phases setter (check = true: phase still there and still a Stream, else forgotten)
+   and in _reset_thermo (check = false) *)
+Fixpoint repoint_all K (check : bool) (sp : stream) (l : list (nat * (phase * nat)))
+         : kstate * list (nat * (phase * nat)) * list nat :=
+  match l with
+  | [] => (K, [], [])
+  | (i, (p, c)) :: t =>
+      let h := uh (ku K) in
+      let single := match nth_error (streams h) c with Some sc => negb (multi sc) | None => false end in
+      match pindex (phs sp) p with
+      | Some r =>
+          if negb check || single then
+            let '(K1, b) := repoint K c (nth r (getarr h (sdata sp)) O) p (pkg sp) in
+            let '(K2, keep, bs) := repoint_all K1 check sp t in
+            (K2, (i, (p, c)) :: keep, match b with Some x => x :: bs | None => bs end)
+          else repoint_all K check sp t
+      | None => repoint_all K check sp t
+      end
+  end.
+Fixpoint reset_memos K (l : list (nat * (phase * nat))) : kstate :=
+  match l with [] => K | (_, (_, c)) :: t => reset_memos (k_pm_reset K c) t end.
+
+Definition target_of (o : op) : option nat :=
+  match o with
+  | OPhase i _ | OPhases i _ | OCopyLike i _ | OThermo i _ | OUnlink i | OResetFlow i _ _ _ _ => Some i
+  | _ => None
+  end.
+
+Definition stepS S (o : op) : sstate * outcome :=
+  let K := sk S in
+  let h := uh (ku K) in
+  let before i := nth_error (streams h) i in
+  let is_locked s := negb (multi s) && locked S (pbox s) in
+  match o with
+  | OSub i r =>
+      match before i with
+      | None => (S, XErr EIndex)
+      | Some s =>
+          if negb (multi s) then (S, XDomain)
+          else match nth_error (phs s) r, nth_error (getarr h (sdata s)) r with
+               | Some p, Some d =>
+                   match sub_find i p (s_subs S) with
+                   | Some _ => (S, XNone)
+                   | None =>
+                       let '(ca, h1) := new_cache h in
+                       let '(b, h2) := new_box h1 p in
+                       let n := length (streams h) in
+                       let h3 := set_streams h2 (streams h2 ++ [mkstream false d b [] (pkg s) ca (tc s)]) in
+                       (mkS (k_grow K h3 n) ((i, (p, n)) :: s_subs S) (b :: s_locked S), XNone)
+                   end
+               | _, _ => (S, XErr EIndex)
+               end
+      end
+  | _ =>
+      (* a LockedPhase refuses another phase (AttributeError), unlink refuses a locked phase (RuntimeError) *)
+      let refused :=
+        match o with
+        | OPhase i p => match before i with
+                        | Some s => if is_locked s && negb (phase_eqb p (getbox h (pbox s))) then Some EOther else None
+                        | None => None end
+        | OUnlink i => match before i with Some s => if is_locked s then Some ERuntime else None | None => None end
+        | _ => None
+        end in
+      let outside :=
+        match o with
+        | OPhases i l => match before i with
+                         | Some s => is_locked s && match psort l with [p] => negb (phase_eqb p (getbox h (pbox s))) | _ => false end
+                         | None => false end
+        | OCopyLike i j => match before i, before j with
+                           | Some s, Some o' => is_locked s && negb (Nat.eqb i j)
+                           | _, _ => false end
+        | OAssignView _ _ _ => false
+        | OResetFlow i (Some p) _ _ _ => match before i with
+                                         | Some s => is_locked s && negb (phase_eqb p (getbox h (pbox s)))
+                                         | None => false end
+        | OThermo i _ => match before i with
+                         | Some s => existsb (fun x => match before (snd (snd x)) with Some sc => multi sc | None => true end)
+                                             (subs_of i (s_subs S))
+                         | None => false end
+        | _ => false
+        end in
+      match refused with
+      | Some e => (S, XErr e)
+      | None =>
+          if outside then (S, XDomain)
+          else
+            let '(K1, x) := stepK K o in
+            let h1 := uh (ku K1) in
+            let subs := s_subs S in
+            match o with
+            | OFromStreams l =>
+                if is_none x then
+                  let n := length (streams h) in
+                  let regs := map (fun j => (n, (match before j with Some sj => getbox h (pbox sj) | None => Pl end, j))) l in
+                  (mkS K1 (regs ++ subs) (s_locked S), x)
+                else (mkS K1 subs (s_locked S), x)
+            | _ =>
+              match target_of o, (match target_of o with Some i => before i | None => None end),
+                    (match target_of o with Some i => nth_error (streams h1) i | None => None end) with
+              | Some i, Some s, Some s' =>
+                  match o with
+                  | OUnlink _ =>
+                      (mkS (if is_none x && multi s then reset_memos K1 (subs_of i subs) else K1) subs (s_locked S), x)
+                  | OThermo _ k =>
+                      if Nat.eqb (pkg s) k then (mkS K1 subs (s_locked S), x)
+                      else if multi s' then
+                        let '(K2, keep, bs) := repoint_all K1 false s' (subs_of i subs) in
+                        (mkS (reset_memos K2 keep) subs (bs ++ s_locked S), x)
+                      else (mkS K1 subs (s_locked S), x)
+                  | OResetFlow _ _ _ _ _ => (mkS K1 subs (s_locked S), x)
+                  | _ =>
+                      if multi s && multi s' && negb (Nat.eqb (sdata s) (sdata s')) then
+                        (* MultiStream.phases with other phases: a new MaterialIndexer *)
+                        let '(K2, keep, bs) := repoint_all K1 true s' (subs_of i subs) in
+                        (mkS (reset_memos K2 keep) (keep ++ subs_not i subs) (bs ++ s_locked S), x)
+                      else if negb (Bool.eqb (multi s) (multi s')) then
+                        (mkS K1 (subs_not i subs) (s_locked S), x)          (* _streams.clear() / _streams = {} *)
+                      else (mkS K1 subs (s_locked S), x)
+                  end
+              | _, _, _ => (mkS K1 subs (s_locked S), x)
+              end
+            end
+      end
+  end.
+Fixpoint runS S (ops : list op) : sstate * list outcome :=
+  match ops with
+  | [] => (S, [])
+  | o :: t => let '(S1, x) := stepS S o in let '(S2, xs) := runS S1 t in (S2, x :: xs)
+  end.
+
 (* ---------- construction of the initial store ---------- *)
 Inductive init := IS (k : nat) (p : phase) (T P : Q) (flow : vec)
                 | IM (k : nat) (l : list phase) (T P : Q) (flow : list vec).
@@ -1005,6 +1216,7 @@ Definition add_stream h (x : init) : heap :=
 Definition build (l : list init) : heap := fold_left add_stream l heap0.
 Definition buildU (l : list init) : ustate := mkU (build l) [] [] (repeat None (length l)).
 Definition buildK (l : list init) : kstate := mkK (buildU l) (map ic_of (streams (build l))).
+Definition buildS (l : list init) : sstate := mkS (buildK l) [] [].
 
 (* ---------- the final observation of every stream ---------- *)
 Record fin := mkfin {
@@ -1054,10 +1266,10 @@ Definition pkgstub : list (list nat) := [[0; 1; 2]; [2; 0; 3; 1]; [8; 9; 10]]%na
 
 Definition check_case (utab : list (option (view * Q))) (l : list init) (ops : list op)
            (obs : list outcome) (fins : list fin) : bool :=
-  let '(K1, xs) := runK vstub mwstub pkgstub utab (buildK l) ops in
-  let h1 := uh (ku K1) in
+  let '(S1, xs) := runS vstub mwstub pkgstub utab (buildS l) ops in
+  let h1 := s_heap S1 in
   list_eqb outcome_eqb xs obs
   && list_eqb fin_eqb (snapshots vstub mwstub pkgstub h1 (length (streams h1)) O) fins.
 Definition show_case (utab : list (option (view * Q))) (l : list init) (ops : list op) :=
-  let '(K1, xs) := runK vstub mwstub pkgstub utab (buildK l) ops in
-  (xs, snapshots vstub mwstub pkgstub (uh (ku K1)) (length (streams (uh (ku K1)))) O, K1).
+  let '(S1, xs) := runS vstub mwstub pkgstub utab (buildS l) ops in
+  (xs, snapshots vstub mwstub pkgstub (s_heap S1) (length (streams (s_heap S1))) O, S1).
